@@ -58,6 +58,12 @@ func isOutOfFlow(n *Node) bool {
 	return n.Float != "" || n.Pos == "absolute" || n.Pos == "fixed"
 }
 
+// isRunningNode: the element is a running element (css-gcpm-3 §1.2, `position: running(name)`): it
+// is taken out of the flow and kept for the page margin boxes (`content: element(name)`).  No rule
+// of CSS 2.1 §9.7 applies to it (that section names absolute and fixed only), so its display is the
+// specified one; where it stood nothing is laid out.
+func isRunningNode(n *Node) bool { return strings.HasPrefix(n.Pos, "running(") }
+
 // isFootnoteNode: the element is a footnote element (css-gcpm-3 §2.1, `float: footnote`).  The
 // computed float of an absolutely positioned / fixed element is none (CSS 2.1 §9.7 rule 2), so
 // such an element is no footnote.
@@ -176,6 +182,7 @@ type einfo struct {
 	shown    bool   // takes part in box generation
 	replaced bool   // replaced element (its children generate nothing)
 	why      string // reason when !shown
+	running  bool   // running element (position: running()): its box is a placeholder in the flow, formed when placed in a margin box
 	footnote bool   // footnote element: its box lives in the footnote area, a ::footnote-call stands in its place
 	listItem bool   // generates a ::marker box
 }
@@ -228,6 +235,7 @@ func buildModel(root *Node) (byID map[int]*einfo, list []*einfo, rootNone bool) 
 			e.cd = blockify(sd)
 		}
 		e.listItem = isListItem(e.cd)
+		e.running = sd != "none" && p != nil && isRunningNode(n)
 		if sd != "none" && p != nil && isFootnoteNode(n) {
 			// css-gcpm-3 §2: the element is taken out of the flow into the footnote area, where
 			// footnote-display alone says whether it is a block or an inline element; a
